@@ -73,13 +73,26 @@ func DumpRenamed(v any, rename func(int64) string) string {
 }
 
 // Get reads a (possibly unexported) field path of a struct or pointer to struct.
+// The result is the invalid Value when the path does not exist (a private field was renamed or
+// removed): checks that look at private structure must then be skipped, never fail — private layout is
+// not part of any property.
 func Get(v any, path ...string) reflect.Value {
 	rv := reflect.ValueOf(v)
 	for _, p := range path {
-		for rv.Kind() == reflect.Pointer || rv.Kind() == reflect.Interface {
+		for rv.IsValid() && (rv.Kind() == reflect.Pointer || rv.Kind() == reflect.Interface) {
+			if rv.IsNil() {
+				return reflect.Value{}
+			}
 			rv = rv.Elem()
 		}
-		rv = access(rv.FieldByName(p))
+		if !rv.IsValid() || rv.Kind() != reflect.Struct {
+			return reflect.Value{}
+		}
+		f := rv.FieldByName(p)
+		if !f.IsValid() {
+			return reflect.Value{}
+		}
+		rv = access(f)
 	}
 	return rv
 }
